@@ -72,6 +72,32 @@ def PV.beqD : List (PV × PV) → List (PV × PV) → Bool
   | _, _ => false
 end
 
+/-! identity of values as the harness writes them (no `True == 1`): used to look up tables of external results -/
+mutual
+def PV.same : PV → PV → Bool
+  | .none, .none => true
+  | .bool a, .bool b => a == b
+  | .int a, .int b => a == b
+  | .str a, .str b => a == b
+  | .fdiv a b, .fdiv c d => PV.same a c && PV.same b d
+  | .list a, .list b => PV.sameL a b
+  | .tuple a, .tuple b => PV.sameL a b
+  | .set a, .set b => PV.sameL a b
+  | .dict a, .dict b => PV.sameD a b
+  | .counter a, .counter b => PV.sameD a b
+  | .opaque t r, .opaque t' r' => t == t' && r == r'
+  | .regex a, .regex b => a == b
+  | _, _ => false
+def PV.sameL : List PV → List PV → Bool
+  | [], [] => true
+  | a :: as, b :: bs => PV.same a b && PV.sameL as bs
+  | _, _ => false
+def PV.sameD : List (PV × PV) → List (PV × PV) → Bool
+  | [], [] => true
+  | (a, x) :: as, (b, y) :: bs => PV.same a b && PV.same x y && PV.sameD as bs
+  | _, _ => false
+end
+
 def PV.elem (x : PV) : List PV → Bool
   | [] => false
   | y :: ys => PV.beq y x || PV.elem x ys
@@ -191,7 +217,7 @@ inductive B where
   | getitem | attr | mkTuple | mkList | mkSet | mkDict
   | len | int_ | list_ | tuple_ | set_ | sorted | flatten | any | all | max | min
   | isStr | isInt | isList | isTuple | isDict | isCounter
-  | counter | reCompile | union | get | items | keys | mostCommon | lower | count | deepcopy
+  | counter | reCompile | union | get | items | keys | mostCommon | lower | count | deepcopy | enumerate
   | ext (name : String)
 deriving Repr, Inhabited, DecidableEq
 
@@ -431,6 +457,14 @@ def opDeepcopy : List PV → Except Err PV
   | [v] => .ok v
   | _ => tyErr "deepcopy"
 
+def enumFrom (i : Nat) : List PV → List PV
+  | [] => []
+  | x :: xs => .tuple [.int i, x] :: enumFrom (i + 1) xs
+
+def opEnumerate : List PV → Except Err PV
+  | [v] => (iterOf v).map (fun xs => .list (enumFrom 0 xs))
+  | _ => tyErr "enumerate"
+
 def builtinOp : B → List PV → Except Err PV
   | .add, vs => opAdd vs
   | .sub, vs => opSub vs
@@ -481,6 +515,7 @@ def builtinOp : B → List PV → Except Err PV
   | .lower, vs => opLower vs
   | .count, vs => opCount vs
   | .deepcopy, vs => opDeepcopy vs
+  | .enumerate, vs => opEnumerate vs
   | .ext name, _ => .error (.missingExt name)
 
 /-- mutating methods on a local name: the new value of the receiver -/
@@ -535,6 +570,11 @@ inductive S where
   | assert_ (e : E)
   | expr (e : E)
   | raise_ (tag : String)
+  /-- `target = name(args)` for an external callable that may update the objects it is given: when the arguments are plain
+  names, their new values are written back (see `applyWriteBack`) -/
+  | extCall (target : String) (name : String) (args : E)
+  /-- `try: body  except exc as x: handler`, for a body whose failure leaves the state as it was (one assignment or call) -/
+  | tryExcept (body : S) (exc : String) (x : String) (handler : S)
   | unsupported (why : String)
 deriving Repr, Inhabited
 
@@ -649,6 +689,23 @@ def bind2 (x y : String) (v : PV) (env : Env) : Except Err Env :=
   | .tuple [a, b] => .ok ((env.set x a).set y b)
   | _ => .error (.typeError "cannot unpack")
 
+/-- the names of the arguments that are plain variables (`none` for any other expression) -/
+def argNames : E → List (Option String)
+  | .cons (.var x) rest => some x :: argNames rest
+  | .cons _ rest => Option.none :: argNames rest
+  | _ => []
+
+def writeBack : List (Option String) → List PV → Env → Env
+  | some x :: ns, v :: vs, env => writeBack ns vs (env.set x v)
+  | Option.none :: ns, _ :: vs, env => writeBack ns vs env
+  | _, _, env => env
+
+/-- an external callable reports updated arguments as `("__wb__", result, [new values of the arguments])` -/
+def applyWriteBack (names : List (Option String)) (r : PV) (env : Env) : PV × Env :=
+  match r with
+  | .tuple [.str "__wb__", ret, .list ups] => (ret, writeBack names ups env)
+  | v => (v, env)
+
 def exec (ext : Ext) : S → St → Except Err (Ctl × St)
   | .skip, st => .ok (.next, st)
   | .seq a b, st => do
@@ -691,6 +748,15 @@ def exec (ext : Ext) : S → St → Except Err (Ctl × St)
     let _ ← evalE ext st.env e
     .ok (.next, st)
   | .raise_ tag, _ => .error (.user tag)
+  | .extCall target name args, st => do
+    let vs ← evalArgs ext st.env args
+    let r ← ext name vs
+    let (ret, env') := applyWriteBack (argNames args) r st.env
+    .ok (.next, { st with env := env'.set target ret })
+  | .tryExcept body exc x handler, st =>
+    match exec ext body st with
+    | .error (.user tag) => if tag = exc then exec ext handler { st with env := st.env.set x (.opaque "exception" exc) } else .error (.user tag)
+    | r => r
   | .unsupported why, _ => .error (.runtime ("unsupported: " ++ why))
 
 def bindParams : List String → List PV → Env → Except Err Env
